@@ -747,7 +747,9 @@ func (s *Scanner) tokSEMICOLON() token.Token {
 // and thus relative to the file set.
 func (s *Scanner) Scan() (t types.Token) {
 scanAgain:
-	s.skipWhitespace()
+	if s.unitVal == "" { // a pending unit directly follows its number: nothing to skip
+		s.skipWhitespace()
+	}
 
 	// current token start
 	t.Pos = s.file.Pos(s.offset)
